@@ -156,6 +156,13 @@ class SymCtx:
         self.inputs[name] = ('bool', v)
         return v
 
+    def bv(self, name, bits, width=64):
+        """an unsigned integer below 2**bits, carried as a `width`-bit vector (bit-twiddling code)"""
+        v = z3.BitVec(name, width)
+        self.inputs[name] = ('bv', v)
+        self.p.assume(z3.ULT(v, z3.BitVecVal(1 << bits, width)))
+        return v
+
     def byte(self, name):
         return self.int(name, 0, 255)
 
@@ -248,6 +255,9 @@ class ConcCtx:
     def bool(self, name):
         return bool(self._get(name, False))
 
+    def bv(self, name, bits, width=64):
+        return int(self._get(name, 0))
+
     def byte(self, name):
         return self.int(name, 0, 255)
 
@@ -329,6 +339,9 @@ class FixedCtx(SymCtx):
 
     def bool(self, name):
         return bool(self.values.get(name, False))
+
+    def bv(self, name, bits, width=64):
+        return int(self.values.get(name, 0))
 
     def bytes(self, name, n, mutable=False):
         v = list(self.values.get(name, [0] * n)) + [0] * n
